@@ -752,7 +752,7 @@ func (h *ibcH) runHistory(sc scenario) {
 		pool = 77
 	}
 	memo := h.buildMemo(sc, rin, rout, pool)
-	feat := fmt.Sprintf("dir=%d strategy=%s has_change=%v has_forward=%v receiver=%s provider=%v fail=%s", sc.dir, sc.strat, sc.change.present && sc.strat == "out", sc.forward.present, sc.receiver, sc.provider, orDash(sc.fail))
+	feat := fmt.Sprintf("dir=%d strategy=%s has_change=%v has_forward=%v receiver=%s provider=%v fail=%s", sc.dir, sc.strat, sc.change.present && sc.strat == "out", sc.forward.present, sc.receiver, sc.provider, ibcOrDash(sc.fail))
 	h.malformed = sc.memoRaw != ""
 	if sc.memoRaw != "" {
 		feat = "malformed_memo=true"
@@ -1033,7 +1033,7 @@ func (h *ibcH) runHistory(sc scenario) {
 	}
 }
 
-func orDash(s string) string {
+func ibcOrDash(s string) string {
 	if s == "" {
 		return "-"
 	}
